@@ -95,6 +95,9 @@ type Ctx struct {
 	viaStack  []string
 	clk0      *Term
 	curFrame  *frame
+	feasChecks int
+	inlineList  []string
+	inlineDepth int
 	bmc       int // >0: bounded unrolling mode (counterexample search only)
 	caseTag   string
 	steps     int
